@@ -446,6 +446,11 @@ Fixpoint asubs (a : arg) : nat :=
   end.
 Definition subs (l : list arg) : nat := list_sum (map asubs l).
 
+(* the command trees outside finding C14.F22: at most STACK_SAFE_SUBS bracketed sub-commands, the number the
+   Python stack is guaranteed to hold (recursion limit, frames per sub-command: table T14) *)
+Definition in_domain (tokens : list arg) : bool := (subs tokens <=? gen.T14.STACK_SAFE_SUBS)%nat.
+Definition stack_holds_domain : Prop := (gen.T14.STACK_SAFE_SUBS < k_budget K)%nat.
+
 (* Owner.doPrivmsg: self.Proxy(irc, msg, tokens) *)
 Definition machine (tokens : list arg) : status :=
   runm (2 * subs tokens + 2) (construct [] [] false (k_budget K) tokens O).
